@@ -49,7 +49,7 @@ CHECKS = {
    technique="deterministic simulation: token-passing scheduler over real goroutines (seeded interleavings, stalls), simulated file/seek faults and cancellation, sequential reference model, tape-minimised replay"),
 }
 
-HOOK_COMMITS = ["d39f006", "035e079", "6cff694", "3c5fbe4", "85aa2e6", "3e5ac0a"]
+HOOK_COMMITS = ["d39f006", "035e079", "6cff694", "3c5fbe4", "85aa2e6", "3e5ac0a", "e9ba2de"]
 
 def main():
     checks = []
@@ -75,7 +75,7 @@ def main():
         "setup_cmd": "./setup.sh",
         "hooks": {
             "guard": "verif (Go build tag)",
-            "enable": "go build -tags verif (check.sh builds /verif/cmd/geomsim against /repo through the replace directive in /verif/go.mod; for C18 against a scratch copy of /repo completed by tools/hookfill, through -modfile)",
+            "enable": "go build -tags verif (check.sh builds /verif/cmd/geomsim against /repo through the replace directive in /verif/go.mod; for C18 and C19 against a scratch copy of /repo completed by tools/hookfill, through -modfile)",
             "baseline_off_cmd": "/verif/baseline_off.sh",
             "source_commits": HOOK_COMMITS,
             "add_only": True,
